@@ -314,6 +314,19 @@ def check_incon(ctx, case, src, dst, repo, inc=None):
 _USED = {}
 
 
+def guarded(ctx, name, case, fn, *args, **kw):
+    """an exception inside a statement evaluation (the implementation left an object in a state on which the
+    statement cannot even be evaluated) is a failure with this case as replay, not a crash of the check"""
+    try:
+        return fn(*args, **kw)
+    except Exception as e:
+        import traceback
+        tb = traceback.extract_tb(e.__traceback__)[-1]
+        fail(ctx, name, 'oracle:statement-not-evaluable-%s' % type(e).__name__, case,
+             '%r at %s:%d' % (e, tb.filename.split('/')[-1], tb.lineno), 'the statement to be evaluable on this input')
+        return None
+
+
 def prime_process():
     """what an earlier caller in the same process may have done: transfers with DEFAULT mapping arguments on an
     unrelated pair of geometries (all atmosphere arrangements that copy / average / default), followed by in-place
@@ -391,7 +404,7 @@ def make_generators(geo, gseed, conforming_names=False, all_columns=False):
         if rng.random() < 0.5:
             g.itab = 'E'; g.enthalpy = [rng.uniform(1e5, 1e6) for _ in range(n)]
     def top_layer(c):       # the column's first layer below ground, from its surface (not from the cached count)
-        return next(l for l in geo.layerlist[1:] if c.surface > l.bottom)
+        return next((l for l in geo.layerlist[1:] if c.surface > l.bottom), geo.layerlist[geo.num_layers - max(1, c.num_layers)])
     for c in (cols if all_columns else rng.sample(cols, min(len(cols), rng.randint(1, 3)))):
         lay = top_layer(c)
         g = t2generator(name=geo.block_name(top, c.name), block=geo.block_name(lay.name, c.name),
